@@ -116,7 +116,7 @@ CLAIMED["C05"] = dict(
          "of C09 (incl. the merged root metadata bundle, mdBody_ok) keep the file valid, so validity is an invariant of any sequence "
          "of such saves; C05_detector — on a valid file the package's detector says EMD, the version query (1,0,0), and the version "
          "helper accepts it.",
-    note="(1) C05_replace_root / C05_target_new_branch / C05_target_new_single / C05_target_new_below / C05_target_below / C05_foreign_root cover rewriting a root group into ANY valid tree and five targeted leaves (a new branch, a new node alone, what is below a new node; the union merge below a common node; a foreign Root under an emdpath, whose children are grafted and which is never written as a nested root group); for "
+    note="(1) C05_replace_root / C05_target_new_branch / C05_target_new_single / C05_target_new_below / C05_target_below / C05_target_over_single / C05_target_over_branch / C05_foreign_root cover rewriting a root group into ANY valid tree and seven targeted leaves, each for a parent below the root (a new branch, a new node alone, what is below a new node; the union merge below a common node; append-over of a common node alone / with its branch; a foreign Root under an emdpath, whose children are grafted and which is never written as a nested root group); for "
          "the other targeted leaves validity is checked by the correspondence (independent h5py-only validator on the real file vs. "
          "Lean validFile on the model file after every save of every history); (2) the per-class body validity (infoOK) is a "
          "hypothesis at tree level and is discharged for the codecs: C05_array_body_ok, C05_metadata_entry_ok, C05_array_node_ok; "
